@@ -329,7 +329,19 @@ pub fn apply(w: &mut World, act: Act) {
             TermAct::ServerDisconnect { reason, form, props } => w.server_disconnect(reason, form, props),
             TermAct::Eof => w.eof(),
             TermAct::ReadErr => w.read_err(),
-            TermAct::Garbage => w.garbage(&[0x00, 0x00]),
+            TermAct::Garbage => {
+                // undecodable input of several kinds, chosen by the amount of traffic so far
+                let variants: [&[u8]; 6] = [
+                    &[0x00, 0x00],                               // packet type 0
+                    &[0x40, 0xff, 0xff, 0xff, 0xff, 0x01],       // remaining length longer than 4 bytes
+                    &[0x20, 0x03, 0x00, 0x00, 0x00],             // CONNACK on an established connection
+                    &[0x30, 0x03, 0x00, 0x05, 0x61],             // PUBLISH whose topic length exceeds the packet
+                    &[0x90, 0x03, 0x00, 0x00, 0x00],             // SUBACK with packet identifier 0
+                    &[0xe0, 0x01, 0x01],                         // DISCONNECT with an undefined reason code
+                ];
+                let k = (w.inbound_seq + w.m.len()) % variants.len();
+                w.garbage(variants[k])
+            }
             TermAct::DropHandles => w.drop_all_handles(),
             TermAct::WriteErr => w.write_err(),
         },
